@@ -614,11 +614,12 @@ Lemma chunked_crash_witness :
   ph st = PCrashed "startReadAndSendChunked: send on closed channel".
 Proof. vm_compute. split; reflexivity. Qed.
 
-(** Real-time mode with duration 2 s (numbers 5 and 6, the second marked last): if the upload of
+(** Before fix 07f3435 ([sc_catchup_checks = false]).
+    Real-time mode with duration 2 s (numbers 5 and 6, the second marked last): if the upload of
     number 5 ends after number 6 became available, number 6 is sent by the catch-up loop without
     lmsg; if the sender stays behind, it goes on beyond the duration. *)
 Lemma catchup_witness :
-  let cf := mk_scfg [ {| ir_kind := RVideo; ir_tab := Some rep2s |} ] rep2s 8000 2000 cfg0 false false (Some 2) false in
+  let cf := mk_scfg_rc RCeil false [ {| ir_kind := RVideo; ir_tab := Some rep2s |} ] rep2s 8000 2000 cfg0 false false (Some 2) false in
   (let '(_, gs, st) := session cf 11200 [] [EvTimer {| fi_clock := [14300; 14301]; fi_refuse := [] |}] in
    map (map (fun m => (mp_nr m, mp_last m))) gs = [[(5, false)]; [(6, false)]] /\ ph st = PStopped /\ lastToSend st = 6)
   /\
@@ -668,11 +669,11 @@ Proof.
   inversion Es; subst. rewrite loopTop_next. reflexivity.
 Qed.
 
-(** The catch-up scenario of [catchup_witness] with the proposed repair
-    (proposed_fixes/C16-catchup-duration.diff, [sc_catchup_checks = true]): number 6 is marked last
+(** The catch-up scenario of [catchup_witness] with the current code (fix 07f3435,
+    [sc_catchup_checks = true]): number 6 is marked last
     and nothing is sent beyond it, however far behind the sender is. *)
 Lemma catchup_fixed_witness :
-  let cf := mk_scfg_rc RCeil true [ {| ir_kind := RVideo; ir_tab := Some rep2s |} ] rep2s 8000 2000 cfg0 false false (Some 2) false in
+  let cf := mk_scfg [ {| ir_kind := RVideo; ir_tab := Some rep2s |} ] rep2s 8000 2000 cfg0 false false (Some 2) false in
   (let '(_, gs, st) := session cf 11200 [] [EvTimer {| fi_clock := [14300; 14301]; fi_refuse := [] |}] in
    map (map (fun m => (mp_nr m, mp_last m))) gs = [[(5, false)]; [(6, true)]] /\ ph st = PStopped)
   /\
@@ -680,8 +681,8 @@ Lemma catchup_fixed_witness :
    map (map (fun m => (mp_nr m, mp_last m))) gs = [[(5, false)]; [(6, true)]] /\ ph st = PStopped).
 Proof. vm_compute. repeat split; reflexivity. Qed.
 
-(** * Duration in both modes once the catch-up loop looks at lastSegNrToSend
-    (the proposed repair, [sc_catchup_checks = true]): for every clock. *)
+(** * Duration in both modes, for every clock, with the catch-up loop that looks at lastSegNrToSend
+    (fix 07f3435, [sc_catchup_checks = true]). *)
 
 Lemma numbered_last_app cf last a : forall n b,
   numbered_last cf last n (a ++ b) <-> numbered_last cf last n a /\ numbered_last cf last (n + lenZ a) b.
@@ -823,4 +824,13 @@ Proof.
   apply (duration_run_any cf Hcc Hc Htab Hav) in Er; [|assumption|reflexivity|cbn [st0 nextNr lastToSend]; lia|cbn [st0 nextNr lastToSend]; lia].
   cbn [st0 nextNr lastToSend] in Er. destruct Er as (L1 & N1 & P1).
   split; [reflexivity|]. split; [lia|]. split; assumption.
+Qed.
+
+(** * Cancel in the init phase: only the inits up to the pending one, nothing else, whatever follows. *)
+Theorem cancel_in_init cf now initres k evs inits gs st :
+  session_c cf now initres (Some k) evs = (inits, gs, st) ->
+  inits = takeZ (k + 1) (repIdxs cf) /\ gs = [] /\ ph st = PStopped.
+Proof.
+  unfold session_c, start_cancelled. intros H. rewrite run_dead in H by (cbn; discriminate).
+  inversion H; subst. repeat split; reflexivity.
 Qed.
